@@ -23,6 +23,32 @@ def sortStrs (l : List String) : List String := l.foldr insertSorted []
 
 def joinOr (sep : String) (l : List String) : String := if l.isEmpty then "-" else sep.intercalate l
 
+def stepRun (s : DS) (mode db meas ret buf : String) : DS × String :=
+    match int? ret, int? buf with
+    | some ret, some buf =>
+      -- HTTP body flags (absent = false); `sched` = ExecutePolicy (always a real run)
+      let fl : Option (Bool × Bool) :=
+        if mode == "dry" then some (true, false)
+        else if mode == "http" then some (false, true)
+        else if mode == "nocf" then some (false, false)
+        else match mode.toList with
+          | ['x', ':', d, c] =>
+            if (d == 't' || d == 'f' || d == 'a') && (c == 't' || c == 'f' || c == 'a') then some (d == 't', c == 't') else none
+          | _ => none
+      if mode != "sched" && fl.isNone then (s, "bad-op") else
+      let pol : Policy := { db := db.toList, meas := if meas == "*" then none else some meas.toList, ret := ret, buf := buf }
+      if !policyValid pol then (s, "rejected") else
+      let (st, r?) :=
+        match fl with
+        | some (dflag, cflag) => execHttp Arc.Generated.C11.dryGate srcCfg dflag cflag s.store pol s.now
+        | none => ((run srcCfg false s.store pol s.now).1, some (run srcCfg false s.store pol s.now).2)
+      match r? with
+      | none => ({ s with store := st }, "err=400")
+      | some r =>
+        ({ s with store := st },
+         s!"ok cutoff={r.cutoff / 1000000000} rows={r.rows} files={r.files} meas={joinOr "," (sortStrs (r.meas.map String.ofList))}")
+    | _, _ => (s, "bad-op")
+
 def stepC11 (s : DS) (fs : List String) : DS × String :=
   match fs with
   | ["reset"] => ({ s with store := [] }, "ok")
@@ -60,31 +86,19 @@ def stepC11 (s : DS) (fs : List String) : DS × String :=
     | some ns => ({ s with now := ns }, "ok")
     | none => (s, "bad-op")
   | ["ls"] => (s, joinOr " " (sortStrs (s.store.map (fun f => String.ofList f.path))))
-  | ["run", mode, db, meas, ret, buf] =>
-    match int? ret, int? buf with
-    | some ret, some buf =>
-      -- HTTP body flags (absent = false); `sched` = ExecutePolicy (always a real run)
-      let fl : Option (Bool × Bool) :=
-        if mode == "dry" then some (true, false)
-        else if mode == "http" then some (false, true)
-        else if mode == "nocf" then some (false, false)
-        else match mode.toList with
-          | ['x', ':', d, c] =>
-            if (d == 't' || d == 'f' || d == 'a') && (c == 't' || c == 'f' || c == 'a') then some (d == 't', c == 't') else none
-          | _ => none
-      if mode != "sched" && fl.isNone then (s, "bad-op") else
-      let pol : Policy := { db := db.toList, meas := if meas == "*" then none else some meas.toList, ret := ret, buf := buf }
-      if !policyValid pol then (s, "rejected") else
-      let (st, r?) :=
-        match fl with
-        | some (dflag, cflag) => execHttp Arc.Generated.C11.dryGate srcCfg dflag cflag s.store pol s.now
-        | none => ((run srcCfg false s.store pol s.now).1, some (run srcCfg false s.store pol s.now).2)
-      match r? with
-      | none => ({ s with store := st }, "err=400")
-      | some r =>
-        ({ s with store := st },
-         s!"ok cutoff={r.cutoff / 1000000000} rows={r.rows} files={r.files} meas={joinOr "," (sortStrs (r.meas.map String.ofList))}")
-    | _, _ => (s, "bad-op")
+  | ["filegen", path, start, step, n, _rg] =>
+    match int? start, int? step, nat? n with
+    | some start, some step, some n =>
+      let ts := (List.range n).map (fun (k : Nat) => some (start + Int.ofNat k * step))
+      let p := path.toList
+      ({ s with store := (s.store.filter (fun f => f.path != p)) ++ [{ path := p, times := ts }] }, "ok")
+    | _, _, _ => (s, "bad-op")
+  -- a killed run leaves a `running` execution row; a restart creates a new handler: neither is read by
+  -- a later run (C11_run_after_crash), so the model's store and answers are unchanged
+  | ["crash", _pol, _point] => (s, "ok")
+  | ["restart"] => (s, "ok")
+  | ["prun", mode, _pol, db, meas, ret, buf] => stepRun s mode db meas ret buf
+  | ["run", mode, db, meas, ret, buf] => stepRun s mode db meas ret buf
   | _ => (s, "bad-op")
 
 def main : IO Unit := Arc.Proto.run stepC11 {}
